@@ -127,6 +127,32 @@ func init() {
 					xs[j].end = a2
 				}
 			}
+			if r.chance(1, 6) && a1 != a2 {
+				// slope exactly 1 with a negative offset: cues that start before the offset must survive
+				d2 = d1 + (a2 - a1)
+				if d1 > a1 {
+					a1, d1 = d1, a1
+					a2, d2 = d2, a2
+				}
+				if len(xs) > 0 {
+					xs[0].start, xs[0].end = 0, (a1-d1)/2+1
+				}
+				c.count("unit-slope")
+			}
+			if r.chance(1, 5) && len(xs) >= 2 && a1 != a2 {
+				// a boundary that coincides with the *corrected* value of another boundary
+				sl := float64(d2-d1) / float64(a2-a1)
+				off := int64(float64(d1) - sl*float64(a1))
+				k := r.intn(len(xs) - 1)
+				v := int64(sl*float64(xs[k].end)) + off
+				if v >= 0 && v < day {
+					xs[k+1].start = v
+					if xs[k+1].end < v {
+						xs[k+1].end = v + 1000000
+					}
+					c.count("coinciding-boundaries")
+				}
+			}
 			c.do(fmt.Sprintf("ops.lincorr %d %d %d %d %s", a1, d1, a2, d2, encMItems(xs)))
 			c.count("random")
 		}
